@@ -9,6 +9,8 @@ From Verif Require Import Lib.Base Decode.GoSlice Decode.GoSliceFacts Decode.Nod
   Decode.CborValue Decode.CborValueProofs
   Gen.DecodeConsts Gen.QuoteConsts Gen.MiscConsts.
 From Verif Require Decode.Conn Decode.ConnProofs Decode.Evidence Decode.EvidenceProofs.
+(* the entry point of the correspondence files: required here so that it is rebuilt with the proofs *)
+From Verif Require Decode.Cases.
 
 Theorem gen_layout_expected :
   DepthSize = 2 /\ ValueLengthSize = 4 /\ HashSize = 32 /\
@@ -478,3 +480,32 @@ Theorem evidence_reordered_panics :
               Evidence.evidence_validate_basic true a b = Err Evidence.V_COMMIT_A.
 Proof. exact EvidenceProofs.evidence_reordered_panics_l. Qed.
 Print Assumptions evidence_reordered_panics.
+
+(* ---------- proof walk: the depth counter covers ALL three child positions ---------- *)
+(* whatever the fuel, an accepted subtree is never nested deeper than maxProofDepth through
+   any combination of leaf / left / right positions (bounded stack of the recursive walk) *)
+Theorem verify_nesting_bounded : forall v es idx s idx' p s' fuel,
+  v <= LatestProofVersion ->
+  walk fuel v es idx 0 s = (Ok (idx', p), s') -> ptr_nesting p <= maxProofDepth.
+Proof. exact verify_nesting_bounded_l. Qed.
+Print Assumptions verify_nesting_bounded.
+
+Theorem walk_rejects_deep_every_position :
+  fst (run (verify_opts 1 true (chain_pos 1 0 200))) = Err E_PROOF_DEPTH /\
+  fst (run (verify_opts 1 true (chain_pos 1 1 200))) = Err E_PROOF_DEPTH /\
+  fst (run (verify_opts 1 true (chain_pos 1 2 200))) = Err E_PROOF_DEPTH /\
+  fst (run (verify_opts 0 true (chain_pos 0 1 200))) = Err E_PROOF_DEPTH /\
+  fst (run (verify_opts 0 true (chain_pos 0 2 200))) = Err E_PROOF_DEPTH /\
+  match fst (run (verify_opts 1 true (chain_pos 1 0 128))) with Ok p => ptr_nesting p | _ => 0 end = 128.
+Proof. exact ProofEntriesProofs.walk_rejects_deep_every_position. Qed.
+Print Assumptions walk_rejects_deep_every_position.
+
+(* the variant that does not count the leaf position is refuted: fuel proportional to
+   maxProofDepth is exhausted, and with more fuel a nesting of 300 is accepted *)
+Theorem walk_leaf_same_depth_unbounded :
+  fst (run (walk_leaf_same_depth (walk_fuel 0) 1 (chain_pos 1 0 300) 0 0)) = Err E_FUEL /\
+  match fst (run (walk_leaf_same_depth 400 1 (chain_pos 1 0 300) 0 0)) with
+  | Ok (_, p) => ptr_nesting p | _ => 0 end = 300 /\
+  fst (run (walk (walk_fuel 0) 1 (chain_pos 1 0 300) 0 0)) = Err E_PROOF_DEPTH.
+Proof. exact walk_leaf_same_depth_unbounded_l. Qed.
+Print Assumptions walk_leaf_same_depth_unbounded.
